@@ -52,7 +52,7 @@ class Chooser(object):
         return sum(1 for t in self.trace if t[0])
 
 
-def explore(run, bound=None, max_executions=None, free=0):
+def explore(run, bound=None, max_executions=None, free=0, info=None):
     """yield (chooser, result) for every execution of run within the bound.
 
     Choice points with index < ``free`` are enumerated completely and do not
@@ -70,6 +70,8 @@ def explore(run, bound=None, max_executions=None, free=0):
         yield ch, res
         count += 1
         if max_executions is not None and count >= max_executions and stack:
+            if info is not None:
+                info['capped'] = True
             return True
         tr = ch.trace
         dev = 0
